@@ -107,6 +107,12 @@ def gen_case(prop, rng, tier, i):
                 script.append(["line", s, rng.choice(waiters + ["flush -r"]), extra])
             elif r < 0.23:
                 script.append(["blank", s])
+            elif r < 0.25:
+                # a reply far longer than any help text (the unknown word is echoed in the error message), then
+                # lines whose replies are written by the parser itself: help, an unknown command, a bad argument
+                script.append(["line", s, "zz" + "y" * rng.choice([3000, 9000, 20000])])
+                for _ in range(rng.randint(1, 3)):
+                    script.append(["line", s, rng.choice(["num-ended -h", "bogus", "pool-size x", "-h", "is-locked"])])
             elif r < 0.29:
                 # a spawning command on a locked pool: refused with an exception whose text is empty — the reply is an empty line
                 st = [x for x in starters if x.split(" ")[0] in ctx["cmds"]]
